@@ -80,7 +80,11 @@ def private_tmpdir():
     private directory that is removed when the check ends."""
     import atexit
     import tempfile
-    d = tempfile.mkdtemp(prefix="verif-run-")
+    # always directly under /tmp, whatever TMPDIR this process inherited: the
+    # environment of the fleet interpreters must have the same SHAPE (variables
+    # and string lengths) in a check and in the replay it spawns, or object
+    # addresses -- and with them address-dependent findings -- would differ
+    d = tempfile.mkdtemp(prefix="verif-run-", dir="/tmp")
     os.environ["TMPDIR"] = d
     tempfile.tempdir = d
     owner = os.getpid()
